@@ -18,7 +18,7 @@ from prosemirror.transform.step import STEPS_BY_ID
 PROPERTY = "C05"
 BOUNDS = ("attribute values: unbounded ints, strings of length <= 2 (symbolic), None, and a list/dict of two such scalars; "
           "slice open depths symbolic within the content's spine; every integer field of every step unbounded; payloads "
-          "from the list-schema catalogue; 'identical effect' compared on every list template (quick: 3)")
+          "from the list-schema catalogue plus two hand-built zero-size non-empty slices (<p>(1,1), <bq(p)>(2,2)); 'identical effect' compared on every list template (quick: 3)")
 ASSUMPTIONS = ["json.dumps/json.loads operate on the realised value of each path",
                "float attribute values and non-string dict keys are outside the bound"]
 
